@@ -212,9 +212,10 @@ example usage...
             raise TypeError("'%s' is not a monitor instance" % y)
         from numbers import Integral
         if isinstance(i, Integral):
-            self._x[i:i+1] = y._x
-            self._y[i:i+1] = y._y
-            self._id[i:i+1] = y._id
+            j = (i+1) or None # i=-1 is the last record, not an empty slice
+            self._x[i:j] = y._x
+            self._y[i:j] = y._y
+            self._id[i:j] = y._id
             return
         if type(i) in (list,numpy.ndarray):
             x = numpy.array(self._x)
